@@ -286,15 +286,19 @@ func (h *baseHandler) flush() {
 	numUnsentMessages := func() int {
 		return len(h.lines) + len(h.serverMessages) + len(h.maprMessages)
 	}
-	for i := 0; i < 10; i++ {
+	for {
 		if numUnsentMessages() == 0 {
 			dlog.Server.Debug(h.user, "ALL lines sent", fmt.Sprintf("%p", h))
 			return
 		}
 		dlog.Server.Debug(h.user, "Still lines to be sent")
-		time.Sleep(time.Millisecond * 10)
+		select {
+		case <-time.After(time.Millisecond * 10):
+		case <-h.done.Done():
+			dlog.Server.Warn(h.user, "Some lines remain unsent", numUnsentMessages())
+			return
+		}
 	}
-	dlog.Server.Warn(h.user, "Some lines remain unsent", numUnsentMessages())
 }
 
 func (h *baseHandler) shutdown() {
